@@ -71,6 +71,14 @@ def head_of(name, el, S):
     return h
 
 
+def text_lines_of(text):
+    """the lines of a text: split at line breaks; a trailing line break does not open another line"""
+    tl = LINE_SPLIT.split(text)
+    if len(tl) > 1 and tl[-1] == '':
+        tl.pop()
+    return tl
+
+
 def expected_lines(tree, syntax, indent, d=0):
     S = SYN[syntax]
     out = []
@@ -81,7 +89,7 @@ def expected_lines(tree, syntax, indent, d=0):
         elif el.text is None:
             out.append(head if kids else head + ' ')
         else:
-            tl = LINE_SPLIT.split(el.text)
+            tl = text_lines_of(el.text)
             if len(tl) == 1:
                 out.append(head + ' ' + tl[0])
             else:
@@ -244,15 +252,15 @@ def rand_line(rng):
 
 def rand_text(rng, multiline):
     if not multiline:
-        return rand_line(rng)
+        return rand_line(rng) + ('\n' if rng.random() < 0.05 else '')
     k = rng.choice([2, 2, 3, 4, 6])
     seps = rng.choice([['\n'], ['\n'], ['\r\n'], ['\r'], ['\n', '\r\n', '\r']])
     s = rand_line(rng)
     for _ in range(k - 1):
         nxt = rand_line(rng) if rng.random() < 0.9 else ''
         s += rng.choice(seps) + nxt
-    if LINE_SPLIT.split(s)[-1] == '':
-        s += 'z'          # no trailing line break (splitlines would drop the last, empty, line)
+    if LINE_SPLIT.split(s)[-1] == '' and rng.random() < 0.8:
+        s += 'z'          # mostly no trailing line break
     return s
 
 
@@ -327,7 +335,7 @@ def has_multiline(stmt):
         if isinstance(unit, g.Group):
             if has_multiline(unit.items):
                 return True
-        elif unit.text is not None and len(LINE_SPLIT.split(unit.text)) > 1:
+        elif unit.text is not None and len(text_lines_of(unit.text)) > 1:
             return True
     return False
 
